@@ -1454,7 +1454,7 @@ func genL3(r *vlib.R, emit func(string)) int {
 		{"resign-expired", "60", "data"}, {"resign-expired", "200", "all"}, {"resign-notyet", "60", "data"}, {"resign-notyet", "250", "data"}, {"ds-to-soa", "-", "all"}, {"ds-to-nsec", "-", "all"}, {"ds-to-nssig", "-", "all"},
 		{"wildcard-replay", "-", "data"}, {"wildcard-replay", "foreign", "data"}, {"wildcard-replay", "foreign", "data"}, {"wildcard-replay", "foreign-root", "data"},
 		{"wildcard-replay", "inzone", "data"}, {"wildcard-replay", "foreignsig", "data"}, {"ds-childside", "-", "all"},
-		{"rcode", "1", "data"}, {"rcode", "4", "data"}, {"rcode", "5", "data"}, {"rcode", "9", "data"}, {"rcode", "3", "all"},
+		{"rcode", "2", "data"}, {"rcode", "1", "data"}, {"rcode", "4", "data"}, {"rcode", "5", "data"}, {"rcode", "9", "data"}, {"rcode", "3", "all"},
 		{"inject-auth", "ns-inzone", "data"}, {"inject-auth", "ns-inzone", "all"}, {"inject-auth", "ns-inzone-sig", "data"},
 		{"inject-auth", "a", "data"}, {"inject-auth", "soa", "data"}, {"inject-auth", "txt-root", "data"}, {"inject-auth", "a", "all"},
 		{"parent-denial", "-", "data"}, {"parent-denial", "-", "data"},
@@ -1519,8 +1519,10 @@ func genL3(r *vlib.R, emit func(string)) int {
 			}
 		}
 	}
+	shortLived := false
 	if zone == "s" && r.Chance(1, 8) {
 		// a zone signing with short lifetimes: answers and denials are cached, the clock passes the expiration, the same is asked again
+		shortLived = true
 		left := vlib.Pick(r, []int{20, 30, 45})
 		e(fmt.Sprintf("l3 tamper zone resign-short %d %s", left, vlib.Pick(r, []string{"data", "data", "notkey"})))
 		var asked []sysQ
@@ -1584,13 +1586,16 @@ func genL3(r *vlib.R, emit func(string)) int {
 			e(fmt.Sprintf("l3 q %s %s %s", q.name, q.typ, vlib.Pick(r, []string{"d", "d", "da", "dw", "-", "a"})))
 		}
 	}
-	if r.Chance(1, 8) {
+	// (not in a world that signs with short lifetimes: the caches measure a signature's remaining life on the real
+	// clock, the emulated advance only ages what is stored — a response fetched AFTER an advance and aged by a second
+	// one would look "served past expiration" although no real clock ever passed it)
+	if !shortLived && r.Chance(1, 8) {
 		// an alias answered from the cache whose target has to be fetched again — and that fetch fails: the alias
 		// outlives the record it points to, the target's zone starts failing validation, the clock passes the TTL
 		al := vlib.Pick(r, []string{"lalias.zone.test.", "lalias.zone.test.", "lalias.zone.test.", "xalias.zone.test."})
 		e(fmt.Sprintf("l3 q %s A %s", al, vlib.Pick(r, []string{"d", "d", "-", "dw", "n"})))
 		k := vlib.Pick(r, []tk{{"flipsig", "-", "all"}, {"flipsig", "-", "data"}, {"expired", "-", "all"}, {"dropsigs", "-", "all"}, {"flipdata", "-", "data"},
-			{"rcode", "5", "data"}, {"signer", "evilzone.test.", "data"}, {"sigfield", "alg16", "data"}, {"resign-expired", "-", "data"}})
+			{"rcode", "5", "data"}, {"rcode", "2", "data"}, {"rcode", "2", "all"}, {"signer", "evilzone.test.", "data"}, {"sigfield", "alg16", "data"}, {"resign-expired", "-", "data"}})
 		e(fmt.Sprintf("l3 tamper other %s %s %s", k.kind, k.arg, k.scope))
 		e(fmt.Sprintf("l3 advance %d", vlib.Pick(r, []int{25, 40, 120, 400})))
 		for i := 0; i < 2+r.Intn(3); i++ {
